@@ -200,6 +200,10 @@ class Ctx:
             gc = "-XX:+UseSerialGC"
             if not heap:
                 jopts.append("-Xmx4g")
+        # SANY unpacks the standard modules into a temporary directory per JVM: keep that inside the run's scratch directory
+        tmpd = os.path.join(d, "tmp")
+        os.makedirs(tmpd, exist_ok=True)
+        jopts = jopts + ["-Djava.io.tmpdir=" + tmpd]
         cmd = ["java", gc] + jopts + ["-cp", TLA_CP, "tlc2.TLC",
                "-workers", str(workers), "-metadir", os.path.join(d, "md"), "-noGenerateSpecTE",
                "-deadlock", "-config", cfgfile]
